@@ -1016,6 +1016,18 @@ func vsUnaryCase(fields map[string]string) string {
 			keys = append(keys, k)
 		}
 	}
+	// k=1: the caller's context is already cancelled, k=2: its deadline has already passed -- the interceptor
+	// is transparent all the same (it is the invoker's business to fail the call)
+	switch fields["k"] {
+	case "1":
+		c2, cancel := context.WithCancel(ctx)
+		cancel()
+		ctx = c2
+	case "2":
+		c2, cancel := context.WithDeadline(ctx, time.Now().Add(-time.Hour))
+		defer cancel()
+		ctx = c2
+	}
 	var opts []grpc.CallOption
 	if fields["o"] != "-" && fields["o"] != "" {
 		for _, t := range strings.Split(fields["o"], ",") {
@@ -1118,8 +1130,12 @@ func vsRandomUnary(rng *vsRng) string {
 	for i := 0; i < no; i++ {
 		os_ = append(os_, rng.intn(50))
 	}
-	return fmt.Sprintf("H U m=%d q=%d p=%d c=%d e=%d o=%s x=%s", rng.intn(9), rng.intn(60), rng.intn(60), rng.intn(4),
-		rng.intn(4), vsJoinInts(os_), x)
+	k := 0
+	if rng.intn(5) == 0 {
+		k = 1 + rng.intn(2)
+	}
+	return fmt.Sprintf("H U m=%d q=%d p=%d c=%d e=%d o=%s x=%s k=%d", rng.intn(9), rng.intn(60), rng.intn(60), rng.intn(4),
+		rng.intn(4), vsJoinInts(os_), x, k)
 }
 
 // ---------------------------------------------------------------- driver
